@@ -101,6 +101,31 @@ func c19r1(c *core.Ctx) {
 			}
 			return true
 		})
+		// the update path performs its unconditional assignments on every normal path (no early exit before them)
+		{
+			nodes := map[string][]ast.Node{}
+			top := map[ast.Node]bool{}
+			for _, st := range p.update.Body.List {
+				top[st] = true
+			}
+			core.InspectNoLits(p.update.Body, func(n ast.Node) bool {
+				if as, ok := n.(*ast.AssignStmt); ok && top[as] {
+					for _, l := range as.Lhs {
+						if sel, ok := ast.Unparen(l).(*ast.SelectorExpr); ok {
+							if id, ok := ast.Unparen(sel.X).(*ast.Ident); ok && m.Info.ObjectOf(id) == statsPar {
+								nodes[sel.Sel.Name] = append(nodes[sel.Sel.Name], as)
+							}
+						}
+					}
+				}
+				return true
+			})
+			for _, miss := range keysNotOnAllPaths(c, p.update, nodes, nil, func(k string) {
+				c.OK("C19/R1", p.update.Name+": "+k+" on all paths", c.At(p.update.Pos()), "assigned on every normal path of the update")
+			}) {
+				c.Violation("C19/R1", p.update.Name+": "+miss+" on all paths", c.At(p.update.Pos()), fmt.Sprintf("%s assigns %s only on some paths: a normal path returns before it, so the reused statistics object keeps the figure of the previous call", p.update.Name, miss))
+			}
+		}
 		var names []string
 		for k := range fresh {
 			names = append(names, k)
